@@ -143,8 +143,11 @@ func (nm LNumber) Format(f fmt.State, c rune) {
 	switch c {
 	case 'q', 's':
 		defaultFormat(nm.String(), f, c)
-	case 'b', 'c', 'd', 'o', 'x', 'X', 'U':
+	case 'b', 'c', 'd', 'U':
 		defaultFormat(int64(nm), f, c)
+	case 'o', 'x', 'X':
+		// unsigned conversions: C prints the two's complement of a negative value
+		defaultFormat(uint64(int64(nm)), f, c)
 	case 'e', 'E', 'f', 'F', 'g', 'G':
 		defaultFormat(float64(nm), f, c)
 	case 'i':
